@@ -349,3 +349,42 @@ def _extract_structure(mr, pr: Prepared, sizes):
         return kernels.extract_raw(mr2, pr.target, pr.out_dims(sizes), modes, ordering)
     finally:
         mr.tensors[pr.target] = saved
+
+
+def compile_corr(chk: Check, drv: Driver, prepared, cap=None, limit=None):
+    """whole-compiler correspondence: Lean `desugar ∘ bestAlgorithm ∘ generateIr ∘ peephole` vs the module
+    the Python compiler emits (generate_module_tensora), exact tree equality, for the three kinds"""
+    from . import algebra
+    from .export import export
+
+    prs = [pr for pr in prepared if pr.problem is not None]
+    if limit is not None:
+        prs = prs[:limit]
+    reqs, wants = [], []
+    for pr in prs:
+        fs = [[nm, "".join(pr.fmts[nm][0]), list(pr.fmts[nm][1])] for nm in pr.problem.formats.keys()]
+        try:
+            m = kernels.generate_ir_module(pr.problem, ["evaluate", "assemble", "compute"], optimise=True)
+            want = sx([Atom("ok"), export(m)])
+        except kernels.Refusal as r:
+            want = "(" + r.kind + ")"
+        except NotImplementedError:
+            want = "(internal NotImplementedError)"
+        except RuntimeError:
+            want = "(internal RuntimeError)"
+        except Exception as e:  # noqa: BLE001
+            want = f"(python-raised {type(e).__name__})"
+        reqs.append("COMPILE " + sx(algebra.export_assignment(pr.assignment)) + " " + sx(fs) + " (evaluate assemble compute) "
+                    + ("default" if cap is None else str(cap)) + " true")
+        wants.append(want)
+    mism = 0
+    for pr, want, rep in zip(prs, wants, drv.batch(reqs)):
+        got = sx(rep)
+        if got != want:
+            mism += 1
+            i = 0
+            while i < min(len(got), len(want)) and got[i] == want[i]:
+                i += 1
+            chk.unproved_obligation("correspondence:compile(whole pipeline)", f"first difference at {i}: lean …{got[max(0, i - 80):i + 120]} vs python …{want[max(0, i - 80):i + 120]}",
+                                    pr.case(capacity=cap))
+    chk.corr("compile-whole-pipeline", len(prs), mism)
